@@ -220,6 +220,8 @@ SCROLL_OPT = ["missing / zero count", "count larger than the range", "count 6553
 def scroll(op, cols, rows, row, top, bottom, props, sb=1, alt=2, limit="Some(1)", parked=(0, 0), mem=10, suffix="", fill="Fill::SymOnePen", nfix=None):
     kw = dict(sb=sb, alt=alt, limit=limit, crow=row, top=top, bottom=bottom, ccol="SYM", parked_rows=parked[0], parked_sb=parked[1], fill=fill)
     fixed_count = op in ("Lf", "Nel", "Ri") or nfix is not None
+    if not fixed_count and rows >= 4:
+        mem = max(mem, 16)   # sc_su__3x4_r0_m12 peaked just above 10 GB in one of six runs (solver phase)
     if nfix is not None:
         suffix += "_n%d" % nfix
     inst("sc_%s__%dx%d_r%d_m%d%d%s" % (op.lower(), cols, rows, row, top, bottom, suffix), "terminal",
@@ -273,7 +275,7 @@ for op in ("Su", "Il", "Dl", "Lf"):
     scroll(op, 2, 2, 0, 0, 1, {"C06": T, "C01": T}, sb=2, limit="None", alt=0, suffix="_sb2")
 
 # ----------------------------------------------------------------------------- terminal: erase / edit / print / rep
-def erase(op, cols, rows, props, sb=1, alt=2, mem=10, suffix=""):
+def erase(op, cols, rows, props, sb=1, alt=2, mem=12, suffix=""):
     kw = dict(sb=sb, alt=alt, limit="Some(1)")
     opt = ["a cell of another row is erased"] if op in ("El0", "El1", "El2", "Ech") else []
     if rows == 1:
